@@ -315,6 +315,16 @@ class Gen:
             body, _ = self.block(env + [(i, ELEM[src[1]], False)], r.randint(1, 2), in_fun, depth - 1)
             return ("forin", i, src[0], body), env
         if k < 0.86:
+            if r.random() < 0.4:
+                # a nullable variable declared WITHOUT a value, read through a default before and after its first assignment
+                # (truthy values only: see the known finding about `?` on falsy values)
+                ty = r.choice([INT, STR])
+                # (literals that occur nowhere else in the program: the checker identifies equal literal expressions with each
+                # other, see the known finding inference-over-rejection)
+                def truthy():
+                    self.n += 1
+                    return ("lit", INT, 1000 + self.n) if ty == INT else ("lit", STR, "z%d" % self.n)
+                return ("nulldecl", self.fresh("z"), ty, truthy(), truthy(), self.fresh("y"), self.fresh("y")), env
             name = self.fresh("n")
             return ("negdef", name, self.expr(INT, env, 1)), env + [(name, INT, True)]
         if k < 0.93:
@@ -597,6 +607,14 @@ class Printer:
             L.append("%sfor %s in %s do" % (pad, s[1], s[2]))
             for t in s[3]:
                 self.stmt(t, ind + 1)
+        elif k == "nulldecl":
+            _, z, ty, dflt, val, y1, y2 = s
+            L.append("%sdef %s: %s?" % (pad, z, ty))
+            L.append("%sdef %s: %s := %s ? %s" % (pad, y1, ty, z, self.e(dflt)))
+            L.append("%sprint(%s)" % (pad, y1))
+            L.append("%s%s := %s" % (pad, z, self.e(val)))
+            L.append("%sdef %s: %s := %s ? %s" % (pad, y2, ty, z, self.e(dflt)))
+            L.append("%sprint(%s)" % (pad, y2))
         elif k == "negdef":
             L.append("%sdef %s: Int := -(%s)" % (pad, s[1], self.e(s[2])))
         elif k == "blockdef":
@@ -795,6 +813,10 @@ class Interp:
                 for t in s[3]:
                     self.stmt(t, local)
                 self.merge(env, local)
+        elif k == "nulldecl":
+            _, z, ty, dflt, val, y1, y2 = s
+            self.out.append(self.show(self.e(dflt, env)))     # still None: the default
+            self.out.append(self.show(self.e(val, env)))      # assigned: the value
         elif k == "negdef":
             env[s[1]] = -self.e(s[2], env)
         elif k == "blockdef":
